@@ -322,31 +322,83 @@ def R4_conservation(ctx):
         ctx.check(n_ok >= 2, "run:Ok-returns-found", "expected the early and the final Ok return of run, found %d" % n_ok, b.where())
     # load balancing loop
     lbb = F.need(OPS + "apply_load_balancing_policy")
-    loops = lbb.natural_loops()
-    okl = len(loops) == 1
-    if okl:
-        h = loops[0][0]
-        rows = iteration_table(lbb, h)
-        backs = [r for r in rows if r.kind == "back"]
-        okl = len(backs) >= 1
-        for r in backs:
-            pushes = [v for _, v in r.calls if v[0] == "call" and v[1] == "std::vec::Vec::<T, A>::push"]
-            nx = [v for _, v in r.calls if v[0] == "call" and itm(v[1], "next")]
-            if len(pushes) != 1 or len(nx) != 1:
-                okl = False
-                break
-            recv, val = [unmut_all(nosite(deep_strip(x))) for x in pushes[0][2]]
-            q = nosite(deep_strip(nx[0]))
+    ltm = Terms(lbb)
+    # the loop over the queries: the one driven by queries.iter().next() (helpers that were written out in place may bring
+    # loops of their own, e.g. the search for the lightest bin)
+    outer = None
+    qsite = None
+    for c in lbb.calls():
+        if c.func.get("method") == "next":
+            recv = unmut_all(nosite(deep_strip(ltm.operand(c.args[0], c.bb))))
+            src = recv
+            while src[0] == "call" and len(src[2]) == 1 and re.search(r"::into_iter$", src[1]):
+                src = src[2][0]
+            if src == ("call", "std::slice::<impl [T]>::iter", (("arg", 1),)) or (src[0] == "call" and src[1].endswith("::iter") and len(src[2]) == 1 and unmut(src[2][0]) == ("arg", 1)):
+                lp = innermost_loop(lbb, c.bb)
+                if lp is not None:
+                    outer, qsite = lp, c
+    okl = outer is not None
+    fold_cb = None
+    if outer is None:
+        # the same pass written as queries.iter().try_fold(state, |state, q| ..) / try_for_each / for_each: the closure is the
+        # loop body, its element parameter the query
+        for c in lbb.calls():
+            if c.callee and (itm(c.callee, "try_fold") or itm(c.callee, "fold") or itm(c.callee, "try_for_each") or itm(c.callee, "for_each")):
+                recv = unmut_all(nosite(deep_strip(ltm.operand(c.args[0], c.bb))))
+                cl = ltm.operand(c.args[-1], c.bb)
+                if recv[0] == "call" and recv[1].endswith("::iter") and len(recv[2]) == 1 and unmut(recv[2][0]) == ("arg", 1) and cl[0] == "closure" and cl[1] in F.bodies:
+                    fold_cb = (F.bodies[cl[1]], c, ("arg", len(c.args)))
+    if fold_cb is not None:
+        cb, fsite, q = fold_cb
+        ctm = Terms(cb)
+        pushes = []
+        for c in cb.calls():
+            if c.callee == "std::vec::Vec::<T, A>::push":
+                recv, val = [unmut_all(nosite(deep_strip(ctm.operand(x, c.bb)))) for x in c.args]
+                if val == q:
+                    pushes.append((c, recv))
+        okl = len(pushes) == 1 and not cb.natural_loops()
+        if okl:
+            P, recv = pushes[0]
+            okl = recv[0] == "call" and recv[1].endswith("IndexMut<I>>::index_mut")
+            for r in table(cb, max_paths=20000):
+                if r.end != "return":
+                    continue
+                if is_err_value(r.ret) or result_variant(r.ret) == "Err":
+                    continue
+                okl = okl and r.path.blocks.count(P.bb) == 1
+            # a failing turn ends the pass with that error; the bins are the fold's result
+            okl = okl and try_propagation(lbb, fsite, ltm)["kind"] in ("propagated", "returned")
+    elif okl:
+        h, blocks = outer
+        q = unmut_all(nosite(deep_strip(ltm.call_term(qsite.term, qsite.bb))))
+        pushes = []
+        for c in lbb.calls():
+            if c.callee == "std::vec::Vec::<T, A>::push" and c.bb in blocks:
+                recv, val = [unmut_all(nosite(deep_strip(ltm.operand(x, c.bb)))) for x in c.args]
+                if val == q:
+                    pushes.append((c, recv))
+        okl = len(pushes) == 1
+        if okl:
+            P, recv = pushes[0]
             # conservation only: the element goes into one bin of the bins vector; which bin is the balancing heuristic's business
-            okl = okl and val == q and recv[0] == "call" and recv[1].endswith("IndexMut<I>>::index_mut") and recv[2][0][0] == "call" and recv[2][0][1] == "std::vec::from_elem" and contains(nx[0], lambda s: s[0] == "call" and s[1].endswith("::iter") and unmut(s[2][0]) == ("arg", 1))
-        for r in rows:
-            if r.kind == "return":
-                exhausted = any(l_ == "None" for d_, l_, _ in r.conds if d_[0] == "discr")
-                rv = nosite(deep_strip(r.ret))
-                if exhausted:
-                    okl = okl and result_variant(rv) == "Ok"
-                else:
-                    okl = okl and (is_err_value(r.ret) or result_variant(rv) == "Err")
+            okl = recv[0] == "call" and recv[1].endswith("IndexMut<I>>::index_mut") and recv[2][0][0] == "call" and recv[2][0][1] == "std::vec::from_elem"
+            # on every turn exactly once: no way round the loop without the push, no second push before the next query
+            okl = okl and innermost_loop(lbb, P.bb) == outer
+            okl = okl and h not in lbb.reach_from_succs(h, removed_blocks=[P.bb])
+            okl = okl and P.bb not in lbb.reach_from_succs(P.bb, removed_blocks=[h])
+        # leaving the loop: exhausted => Ok, otherwise an error
+        for (x, y) in loop_exit_edges(lbb, blocks):
+            t = lbb.blocks[x]["term"]
+            exhausted = False
+            if t["k"] == "switch":
+                d, names = switch_discr_info(lbb, x)
+                exhausted = bool(names) and switch_target(t, names, "None") == y and unmut_all(nosite(deep_strip(ltm.operand(d, x)))) == ("discr", q)
+            vals = region_value(lbb, (x, y))
+            if exhausted:
+                okl = okl and bool(vals) and all(result_variant(nosite(deep_strip(v))) == "Ok" for _, v in vals)
+            else:
+                okl = okl and bool(vals) and all(is_err_value(v) or result_variant(nosite(deep_strip(v))) == "Err" for _, v in vals)
     ctx.check(okl, "load-balancing:one-bin-per-query", "the loop over all queries does not push each query into exactly one bin (assignments[min_bin]) on every non-error iteration", lbb.where(), detail="for q in queries: assignments[min_bin].push(q)")
     ltm = Terms(lbb)
     rt = nosite(deep_strip(ltm.return_term()))
@@ -356,6 +408,12 @@ def R4_conservation(ctx):
     # weight failure never aborts the batch
     we = [c for c in lbb.calls_deep() if (c.callee or "").endswith("get_query_weight_estimate")]
     okw = len(we) == 1
+    if not we:
+        # in the closure of a fold over the queries
+        for cb_ in tree_of(F, lbb.path)[1:]:
+            wc = [c for c in cb_.calls() if (c.callee or "").endswith("get_query_weight_estimate")]
+            if len(wc) == 1:
+                okw = try_propagation(cb_, wc[0])["kind"] not in ("propagated", "returned")
     for c in we:
         if isinstance(c, VirtualCallSite):
             inner_kind = try_propagation(c.inner.body, c.inner)["kind"]
@@ -652,6 +710,20 @@ def R5_error_discipline(ctx):
                 if dt[0] == "discr" and dt[1][0] == "call" and dt[1][1].endswith("::branch"):
                     src = dt[1][2][0]
                     key = src[1] if src[0] == "call" else "?"
+                    if src[0] == "phi" and cb.raw.get("inlined"):
+                        # the result of a helper written out in place: Ok(..) or an error it propagated itself, whose own
+                        # source is judged where it is propagated inside the copy
+                        def origin(a_):
+                            while a_[0] == "mut":
+                                a_ = a_[1]
+                            if a_[0] == "agg" and a_[2] == "Ok":
+                                return "ok"
+                            if a_[0] == "call" and a_[1].endswith("::from_residual"):
+                                inner_ = [x for x in subterms(a_[2][0]) if x[0] == "call" and x[1].endswith("::branch")]
+                                return "inner" if inner_ else None
+                            return None
+                        if all(origin(a_) for a_ in src[1]):
+                            continue
                     ok = key in (APP + "run_single_query", "routee_compass::app::compass::response::response_sink::ResponseSink::write_response") or key in names or key.startswith("std::iter::") or itm(key, "collect") or "Iterator" in key
                     ctx.check(ok, "%s:propagates:%s" % (fn, key.split("::")[-1]), "the per-query code propagates an Err of %s" % key, cb.where(sbb), detail="run_single_query is always Ok; write_response = sink I/O")
 
